@@ -92,8 +92,9 @@ class C04(Prop):
         "Transformer/ConditionalStep rounds (_get_inputs, _group_by_tag, _reduce_statuses, _get_status, terminate); "
         "GatherStep's termination for every arrival list is proved from the C01 model (C04_contract_gather); "
         "for networks mixing sequential and merge-style steps (log machines) no-deadlock / stuck-implies-terminated / "
-        "no-read-past-a-termination-token hold for every execution (C04_mixed_net_partial), instantiated with no "
-        "hypothesis for ScatterStep, one-input Transformer and GatherStep; CombinatorStep/LoopCombinatorStep/LoopOutputStep/"
+        "no-read-past-a-termination-token hold for every execution and every execution can be completed "
+        "(C04_mixed_net_partial, C04_mixed_net_can_complete), instantiated with no hypothesis for ScatterStep, one-input "
+        "Transformer, GatherStep and CombinatorStep with any C02 combinator tree; LoopCombinatorStep/LoopOutputStep/"
         "ExecuteStep/Schedule/Transfer are only assumed to honour the contracts. FAILED is absorbing "
         "through _reduce_statuses/_get_status when no CANCELLED is present. The executor's closing logic is a 2-field "
         "state machine: after _cancel or close() no step is left unterminated and a FAILED/CANCELLED status makes run() "
